@@ -173,6 +173,39 @@ theorem G.of_eq {s s' : State} (e1 : s'.threads = s.threads) (e2 : s'.nextTid = 
   lost := fun u th h hv => Or.inr ⟨th, by rw [e1]; exact h, Or.inl hv⟩
   idle := fun u th h hv => Or.inr ⟨th, by rw [e1]; exact h, hv⟩
 
+/-- `G` without the clause about the current thread -/
+structure G0 (s s' : State) : Prop where
+  tid : s.nextTid ≤ s'.nextTid
+  depth : s'.depth = s.depth
+  mono : ∀ u th', u < s.nextTid → thFind s'.threads u = some th' →
+    ∃ th, thFind s.threads u = some th ∧ (th.dead = true → th'.dead = true)
+  lost : ∀ u th, thFind s.threads u = some th → th.hasVM = true →
+    thFind s'.threads u = none ∨ ∃ th', thFind s'.threads u = some th' ∧ (th'.hasVM = true ∨ th'.dead = true)
+  idle : ∀ u th, thFind s.threads u = some th → (th.vm = .idling ∨ th.vm = .destroyed) →
+    thFind s'.threads u = none ∨
+      ∃ th', thFind s'.threads u = some th' ∧ (th'.vm = .idling ∨ th'.vm = .destroyed)
+
+theorem G.g0 {s s' : State} (g : G s s') : G0 s s' := ⟨g.tid, g.depth, g.mono, g.lost, g.idle⟩
+
+theorem G0.withCur {s s' : State} (g : G0 s s') (hc : s'.cur = s.cur ∨ s'.cur = none) : G s s' :=
+  ⟨g.tid, hc, g.depth, g.mono, g.lost, g.idle⟩
+
+/-- `G0` only reads threads, `nextTid`, `depth` -/
+theorem G0.congr {a b a' b' : State} (g : G0 a b)
+    (ea1 : a'.threads = a.threads) (ea2 : a'.nextTid = a.nextTid) (ea3 : a'.depth = a.depth)
+    (eb1 : b'.threads = b.threads) (eb2 : b'.nextTid = b.nextTid) (eb3 : b'.depth = b.depth) : G0 a' b' := by
+  refine ⟨by rw [ea2, eb2]; exact g.tid, by rw [ea3, eb3]; exact g.depth, ?_, ?_, ?_⟩
+  · rw [ea1, ea2, eb1]; exact g.mono
+  · rw [ea1, eb1]; exact g.lost
+  · rw [ea1, eb1]; exact g.idle
+
+theorem G0.trans {a b c : State} (ha : NInv a) (h1 : G0 a b) (h2 : G0 b c) : G0 a c := by
+  have g1 : G a { b with cur := a.cur } :=
+    (h1.congr (a' := a) (b' := { b with cur := a.cur }) rfl rfl rfl rfl rfl rfl).withCur (Or.inl rfl)
+  have g2 : G { b with cur := a.cur } { c with cur := a.cur } :=
+    (h2.congr (a' := { b with cur := a.cur }) (b' := { c with cur := a.cur }) rfl rfl rfl rfl rfl rfl).withCur (Or.inl rfl)
+  exact (G.trans ha g1 g2).g0.congr rfl rfl rfl rfl rfl rfl
+
 /-! ### weakening and discharging the exemptions -/
 
 theorem LinkInv.weaken {C W C' W' : List Nat} {top top' : Option Nat} {s : State} (h : LinkInv C W top s)
